@@ -320,3 +320,16 @@ package vm
 //@   ensures[C08] @quadratic64 err == nil && newMemSize != 0 && ((newMemSize + 31) / 32) * 32 > uint64(old(len(mem.store)))
 //@     ==> mem.lastGasCost == ((newMemSize + 31) / 32) * 3 + (((newMemSize + 31) / 32) * ((newMemSize + 31) / 32)) / 512
 //@   nopanic[C07,C08]
+
+// ---- gas forwarded to a call (C07: 63/64 rule, EIP-150) -------------------------------------------
+// With the EIP-150 table a call receives the requested gas, capped at all-but-one-64th of what is
+// left after the base cost; without it exactly the requested gas (an error if that does not fit
+// 64 bits). Never more than requested.
+//@ func callGas
+//@   requires callCost != nil && big(callCost) >= 0 && base <= availableGas
+//@   ensures[C07] @cap err == nil && gasTable.CreateBySuicide > 0 ==> result0 <= (availableGas - base) - (availableGas - base) / 64
+//@   ensures[C07] @requested err == nil && old(big(callCost)) < 18446744073709551616 ==> result0 <= L(old(big(callCost)))
+//@   ensures[C07] @capped gasTable.CreateBySuicide > 0 && (old(big(callCost)) >= 18446744073709551616 || L(old(big(callCost))) > (availableGas - base) - (availableGas - base) / 64) ==> err == nil && result0 == (availableGas - base) - (availableGas - base) / 64
+//@   ensures[C07] @exact err == nil && old(big(callCost)) < 18446744073709551616 && L(old(big(callCost))) <= (availableGas - base) - (availableGas - base) / 64 ==> result0 == L(old(big(callCost)))
+//@   ensures[C07] @legacy gasTable.CreateBySuicide == 0 ==> (err == nil <==> old(big(callCost)) < 18446744073709551616)
+//@   nopanic[C07]
